@@ -271,6 +271,36 @@ func thrScenarios(tier string) []*mc.Scenario {
 				out = append(out, &e)
 			}
 		}
+		// one resource name shared by more connections than the limit: the
+		// governed requests of a reset are counted per request, not per name
+		if n == 1 || n == 2 {
+			tm := &thrState{}
+			sh := &mc.Scenario{
+				Name:  fmt.Sprintf("thr/reset-shared/N%d", n),
+				Props: []string{"C19"},
+				Cfg:   func(c *server.Config) { c.ResetThrottle = n },
+				Init:  func(w *mc.World) { w.Svc.Model(names[0], "n", `0`) },
+				Threads: []mc.Thread{{Name: "svc", Ops: []mc.Op{
+					{Name: "mutate+reset", Phase: 1, When: clientsDone, Do: func(w *mc.World) {
+						w.Svc.Silent(names[0], func(r *mc.SvcRes) { r.M["n"] = `1` })
+						w.Svc.Reset([]string{names[0]}, []string{names[0]})
+					}},
+				}}},
+				Bound: map[string]int{"quick": 1, "thorough": 3},
+			}
+			for i := 0; i < n+2; i++ {
+				sh.Conns = append(sh.Conns, conn(latest, req("subscribe."+names[0], 0)))
+			}
+			sh.Monitors = func(w *mc.World) []mc.Monitor {
+				return allMons(func() mc.Monitor {
+					return &mc.ThrottleMon{Limit: n, StrictSlots: true,
+						Governed:  func(r *mc.Req) bool { return tm.governed(w, r) },
+						Throttles: func(w *mc.World) int { return tm.resets(w) },
+					}
+				})(w)
+			}
+			out = append(out, sh)
+		}
 		// reference throttle: a tree with shared and cyclic children
 		sc := &mc.Scenario{
 			Name:  fmt.Sprintf("thr/reference/N%d", n),
@@ -780,6 +810,31 @@ func gcScenarios(tier string) []*mc.Scenario {
 			}}},
 		})
 	}
+	// members of a reference cycle (a self reference, a cycle of two) that are
+	// sent and then released as roots while a parent that is still loading
+	// (one of its other references is slow) references them: the client drops
+	// them, so the parent's response has to bring them again
+	out = append(out, &mc.Scenario{
+		Name: "gc/cycle-loading", Props: []string{"C02"}, Monitors: allMons(),
+		Init: func(w *mc.World) {
+			s := w.Svc
+			s.Model("test.a", "self", ref("test.a"), "n", `0`)
+			s.Model("test.b", "r", ref("test.c"))
+			s.Model("test.c", "r", ref("test.b"))
+			s.Model("test.d", "n", `0`)
+			s.Model("test.p", "x", ref("test.a"), "y", ref("test.b"), "z", ref("test.d"))
+			s.Model("test.m", "n", `0`)
+		},
+		Slow: func(r *mc.Req) bool { return r.Subject == "get.test.d" },
+		Conns: []mc.ConnSpec{conn(latest, req("subscribe.test.a", 0), req("subscribe.test.b", 0), req("subscribe.test.m", 0), req("subscribe.test.p", 1),
+			req("unsubscribe.test.a", 2), req("unsubscribe.test.b", 2))},
+		Threads: []mc.Thread{{Name: "svc", Ops: []mc.Op{
+			// a change event on a sent parent that releases a cycle member while p is loading
+			op("m.r=c", 1, func(w *mc.World) { w.Svc.Change("test.m", "r", ref("test.c")) }),
+			op("m.r=0", 2, func(w *mc.World) { w.Svc.Change("test.m", "r", `0`) }),
+			op("a.n=1", 3, func(w *mc.World) { w.Svc.Change("test.a", "n", `1`) }),
+		}}},
+	})
 	// one change event sets a reference to an uncached resource (slow get) and
 	// one to a resource the client holds only directly, which it then releases
 	out = append(out, &mc.Scenario{
